@@ -31,6 +31,7 @@ import tempfile
 
 from common import clist, cstr, cnat, cjv, cpair, cZ
 import c09_listing as L
+import c09_session as S
 
 PROP = 'C09'
 COQ_DIR = 'Ref'
@@ -47,6 +48,8 @@ ASSUMPTIONS = [
     'directory listings: an entry is one of 7 kinds (directory, regular file, other, symbolic link resolving to each of them, '
     'link that does not resolve); os.path.isdir / isfile follow links (Ref.Model.kind_isdir / kind_isfile); the kinds are read '
     'back from the real file system with lstat()/stat() by harness/c09_listing.py; entry names hold no "/"',
+    'a Manifest object is changed only through Manifest.update (dict.update of the keys: an existing key keeps its place) and '
+    'Manifest.clear (Ref.Model.mop / mrun); the expected keys are simulated by harness/c09_session.py, not taken from the code',
     'nf_guard (the accepted strings on which parse(print(parse s)) = parse s is proved) is compared with an re-based oracle of '
     'this file and the fixed-point claim is evaluated on the implementation for every string',
 ]
@@ -693,6 +696,149 @@ def _listings(ctx, impl, cases=None, rng='ctx'):
         ctx.disagree({'listing': lc['listing'], 'root': lc['root'], 'opts': lc['opts'], 'ctx': lc['ctx']}, terms[i][:1500], '',
                      'C09 Manifest.fromDirectory / reference functions under the listed folders vs Ref.Model.check_listing')
 
+# ---------------------------------------------------------------- the life cycle of ONE Manifest object
+SESSION_TEMPLATES = ['%s/run.sh:ref', '%s:copy', '%s/models/large/weights.bin:link', '%s/bar/f.txt:copyout', 'stage0.%s/f:ref']
+
+
+def _session_refs(case, cx, rng):
+    """references into every folder the session ever mentions (present at the end or not), into one known component of the
+    owner stage and into a name that was never a folder"""
+    names = S.mentioned(case)
+    extra = ['nothere'] + sorted(cx['known'].get(cx['stage'], []))[:1]
+    refs = []
+    for n in names + [x for x in extra if x not in names]:
+        if case.get('few_refs'):
+            ts = SESSION_TEMPLATES[:1]
+        else:
+            ts = SESSION_TEMPLATES if rng is None else rng.sample(SESSION_TEMPLATES, 2)
+        for t in ts:
+            r = t % n
+            if r.count(':') == 1 and r not in refs and not finding_classes(r):
+                refs.append(r)
+    return refs
+
+
+def _make_manifest(F, case, base):
+    import yaml
+    src = {k: 'src:copy' for k in case['init']}
+    how = case['how']
+    if how == 'novalidate':
+        return F.Manifest(dict(src), validate=False)
+    if how == 'file':
+        path = os.path.join(base, 'manifest.yaml')
+        with open(path, 'w') as f:
+            yaml.safe_dump(src, f, sort_keys=False)
+        return F.Manifest.fromFile(path)
+    if how == 'directory':
+        pkg = os.path.join(base, 'pkg')
+        os.makedirs(pkg)
+        for k in case['init']:
+            os.makedirs(os.path.join(pkg, k))
+        return F.Manifest.fromDirectory(pkg)
+    return F.Manifest(dict(src))
+
+
+def _run_session(ctx, impl, case, rng):
+    """-> Coq term of the session (or None)"""
+    F = impl.F
+    base_cx = CONTEXTS[case['ctx']]
+    desc = {'session': {k: case[k] for k in ('init', 'how', 'ops', 'ctx')}}
+    want = S.expected_keys(case['init'], case['ops'])
+    base = tempfile.mkdtemp(prefix='c09s_')
+    steps = []
+    try:
+        def read(m, k):
+            keys, tl = list(m.manifestData), m.top_level_folders
+            steps.append((keys, list(tl)))
+            return keys, tl
+
+        def act():
+            m = _make_manifest(F, case, base)
+            read(m, 0)
+            for k, op in enumerate(case['ops']):
+                if op[0] == 'update':
+                    src = {x: '/store/%d:link' % k for x in op[1]}
+                    other = src if op[2] == 'dict' else F.Manifest(dict(src), validate=False)
+                    m.update(other.manifestData if op[2] == 'data' else other)
+                elif op[0] == 'clear':
+                    m.clear()
+                elif op[0] == 'validate':
+                    try:
+                        m.validate()
+                    except Exception:
+                        pass
+                elif op[1] == 'folders':
+                    mine = m.top_level_folders
+                    mine += ['nothere', 'zz']
+                    del mine[:]
+                else:
+                    mine = m.manifestData
+                    mine['nothere/deep'] = 'x:copy'
+                    mine.pop(next(iter(mine)))
+                read(m, k + 1)
+            return m
+        m = _call(act)
+        ctx.case(['session', case['init'], case['how'], case['ops']], any('/' in k for ks in want for k in ks))
+        ctx.count('session_cases')
+        ctx.count('session_how_' + case['how'])
+        for op in case['ops']:
+            ctx.count('session_op_' + op[0] + ('_' + op[2] if op[0] == 'update' else ''))
+        if isinstance(m, (int, str)):
+            ctx.fail(dict(desc, raised=m, after_steps=len(steps)),
+                     'creating a Manifest and changing it with update() / clear() raised', [])
+            return None
+        init_order = None
+        if case['how'] == 'directory':
+            # os.listdir gives the entries in no particular order: the model is told the order the implementation saw
+            if sorted(steps[0][0]) == sorted(want[0]):
+                init_order = list(steps[0][0])
+                want = S.expected_keys(init_order, case['ops'])
+        for k, (keys, tl) in enumerate(steps):
+            if keys != want[k] or list(tl) != S.first_segments(want[k]):
+                ctx.fail(dict(desc, step=k, manifest_keys=keys, top_level_folders=list(tl), expected_keys=want[k],
+                              expected_folders=S.first_segments(want[k])),
+                         'the top-level folders of a manifest that was changed with update() / clear() are not the first path '
+                         'segments of the keys it holds now', [])
+                break
+        cx = {'stage': base_cx['stage'], 'known': base_cx['known'], 'appdeps': base_cx['appdeps'], 'keys': want[-1]}
+        tlf = list(m.top_level_folders)
+        rterms = []
+        for r in _session_refs(case, cx, rng):
+            o = impl.observe_cx(cx, tlf, r)
+            o2 = impl.observe2_cx(cx, tlf, r, o)
+            _predicates(ctx, impl, case['ctx'], r, o, o2, cx=cx, tlf=tlf, case=dict(desc, ref=r))
+            ctx.case(['session-ref', case['init'], case['how'], case['ops'], case['ctx'], r], isinstance(o[0], list))
+            ctx.count('session_refs')
+            if isinstance(o[4], list):
+                ctx.count('session_ref_component' if o[4][0] is not None else 'session_ref_direct')
+            rterms.append('(%s, %s, %s)' % (cstr(r), cjv(o), cjv(o2)))
+    finally:
+        shutil.rmtree(base, ignore_errors=True)
+    known = clist(sorted(cx['known'].items()), lambda kv: '(%s, %s)' % ('%d%%N' % kv[0], clist(kv[1], cstr)))
+    return '(%s, %s, %s, %d%%N, %s, %s, %s)' % (
+        clist(init_order if init_order is not None else case['init'], cstr), S.coq_ops(case['ops'], cstr, clist),
+        clist(steps, lambda s: '(%s, %s)' % (clist(s[0], cstr), clist(s[1], cstr))),
+        cx['stage'], known, clist(cx['appdeps'], cstr), '[' + '; '.join(rterms) + ']')
+
+
+def _sessions(ctx, impl, cases=None, rng='ctx'):
+    """one Manifest object created, changed with update() / clear(), read after every step: vs the dict simulated by the
+    harness and vs Ref.Model.check_session"""
+    rng = ctx.rng if rng == 'ctx' else rng
+    cases = S.cases(ctx.tier, ctx.rng, len(CONTEXTS)) if cases is None else cases
+    terms, idx = [], []
+    for k, case in enumerate(cases):
+        t = _run_session(ctx, impl, case, rng)
+        if t is not None:
+            terms.append(t)
+            idx.append(k)
+    bad = ctx.model_mismatches(HEADER(), terms, 'check_session', chunk=16, name='sessions')
+    for i in bad:
+        case = cases[idx[i]]
+        ctx.disagree({'session': {k: case[k] for k in ('init', 'how', 'ops', 'ctx')}}, terms[i][:1500], '',
+                     'C09 Manifest life cycle (keys / top_level_folders after every step, reference functions under the final '
+                     'folders) vs Ref.Model.check_session')
+
 
 def run(ctx):
     ctx.rule = ('reference strings = stage prefix (none, stage0., stage1., stage12., stage1x., stage01., stage.) x 25 producer '
@@ -703,12 +849,16 @@ def run(ctx):
                 'manifest keys incl. nested); folder lists taken from real directory listings (Manifest.fromDirectory on temporary '
                 'directories: 7 entry kinds x 21 ways of making them, 4 include_dirs/include_files settings, 6 kinds of path; fixed '
                 'corpus + systematic family + random listings, 3 of 8 reference templates into every entry, package load through '
-                'configurationForExperiment for about 4 of 10 random listings); non-trivial = accepted by the parser and holding at least one of / . % # '
+                'configurationForExperiment for about 4 of 10 random listings); sessions on ONE Manifest object (created by '
+                'Manifest(dict) / validate=False / fromFile / fromDirectory, then 1-5 of update(dict | Manifest | manifestData), clear(), '
+                'validate(), caller-side change of a returned list / dict; fixed corpus + every sequence of at most two operations + '
+                'random sessions; keys and top_level_folders read after every step); non-trivial = accepted by the parser and holding at least one of / . % # '
                 'before the colon; distinct by (context, string)')
     pairs = enumerate_refs(ctx.tier, ctx.rng)
     impl = _explore(ctx, pairs)
     _folders(ctx, impl)
     _listings(ctx, impl)
+    _sessions(ctx, impl)
     _end_to_end(ctx, impl)
     ctx.exhaustive = True
     ctx.extra['exhaustive_scope'] = 'the token grammar above is enumerated completely (quick: 2 methods in the full cross product)'
@@ -723,6 +873,8 @@ def replay(ctx, path):
                                        'ctx': c.get('ctx', 0), 'explicit_manifest': bool(c.get('explicit_manifest')),
                                        'load': bool(c.get('load')) or any(e[0] == 'conf' and e[1] == 'dir' for e in c['listing'])}],
                   rng=None)
+    elif 'session' in c:
+        _sessions(ctx, Impl(), cases=[dict(c['session'])], rng=None)
     elif 'ref' in c:
         _explore(ctx, [(c['ctx'], c['ref'])])
     elif 'manifest_keys' in c or 'folders_case' in c or 'manifest' in c or 'appdeps' in c:
